@@ -642,6 +642,195 @@ class Inliner:
             self._remove_dead_helpers(preds)
         return changed
 
+    # ------------------------------------------------------------------ wrapper decorators
+    def inline_wrapper_decorators(self) -> bool:
+        """A private decorator (factory) whose wrapper only runs some statements and then calls
+        the decorated function with the arguments it got
+
+            def _requires(*states):                    @_requires(A, B)
+                def decorator(method):                 def op(self, x): BODY
+                    @wraps(method)
+                    def wrapper(self, *args, **kw):     ->   def op(self, x):
+                        self._check(*states)                     self._check(A, B)
+                        return method(self, *args, **kw)         BODY
+                    return wrapper
+                return decorator
+
+        is the decorated function with those statements in front.  Only when wrapper and
+        function are both synchronous or both coroutine functions: a synchronous wrapper around a
+        coroutine function runs its statements when the coroutine object is created, which is
+        not the same thing - such a function keeps its decorator and the rules see a body without
+        the statements."""
+        changed = False
+        decos: dict = {}
+        for mod in self.p.modules.values():
+            for st in mod.tree.body:
+                if not isinstance(st, ast.FunctionDef) or st.decorator_list:
+                    continue
+                shape = self._wrapper_shape(st)
+                if shape is not None:
+                    decos[st.name] = (mod, st) + shape
+        if not decos:
+            return False
+        # every reference to the decorator must be a decoration
+        for name in list(decos):
+            for mod in self.p.modules.values():
+                deco_nodes = {id(x) for n in ast.walk(mod.tree) if isinstance(n, (ast.FunctionDef, ast.AsyncFunctionDef, ast.ClassDef)) for d in n.decorator_list for x in ast.walk(d)}
+                for n in ast.walk(mod.tree):
+                    if isinstance(n, ast.Name) and n.id == name and isinstance(n.ctx, ast.Load) and id(n) not in deco_nodes:
+                        decos.pop(name, None)
+                    elif isinstance(n, ast.Attribute) and n.attr == name:
+                        decos.pop(name, None)
+        for mod in self.p.modules.values():
+            for fn in ast.walk(mod.tree):
+                if not isinstance(fn, (ast.FunctionDef, ast.AsyncFunctionDef)) or not fn.decorator_list:
+                    continue
+                d = fn.decorator_list[-1]  # the innermost decorator is applied first
+                dname = d.func.id if isinstance(d, ast.Call) and isinstance(d.func, ast.Name) else d.id if isinstance(d, ast.Name) else None
+                if dname not in decos:
+                    continue
+                dmod, dnode, factory_args, wrapper, pre = decos[dname]
+                if dmod is not mod:
+                    continue
+                if isinstance(wrapper, ast.AsyncFunctionDef) != isinstance(fn, ast.AsyncFunctionDef):
+                    self.log.append(f"decorator {dname} kept on {fn.name}: synchronous wrapper around a coroutine function")
+                    continue
+                if not fn.args.args or not wrapper.args.args:
+                    continue
+                if factory_args is not None and not isinstance(d, ast.Call):
+                    continue
+                if factory_args is None and isinstance(d, ast.Call):
+                    continue
+                subst = {wrapper.args.args[0].arg: ast.Name(id=fn.args.args[0].arg, ctx=ast.Load())}
+                extra_pos: list = []
+                vararg = None
+                if factory_args is not None:
+                    fa = factory_args
+                    if fa.kwarg or fa.posonlyargs or d.keywords and any(k.arg is None for k in d.keywords):
+                        continue
+                    params = [x.arg for x in fa.args]
+                    # `@deco(*_STATES)` with a module-level tuple constant
+                    dargs = []
+                    for x in d.args:
+                        if isinstance(x, ast.Starred) and isinstance(x.value, ast.Name) and isinstance(mod.assigns.get(x.value.id), ast.Tuple) and sum(1 for n_ in ast.walk(mod.tree) if isinstance(n_, ast.Name) and n_.id == x.value.id and isinstance(n_.ctx, ast.Store)) == 1:
+                            dargs.extend(copy.deepcopy(mod.assigns[x.value.id].elts))
+                        else:
+                            dargs.append(x)
+                    if any(isinstance(x, ast.Starred) for x in dargs):
+                        continue
+                    d = ast.copy_location(ast.Call(func=d.func, args=dargs, keywords=d.keywords), d)
+                    ok = True
+                    for i, arg in enumerate(d.args):
+                        if i < len(params):
+                            subst[params[i]] = arg
+                        elif fa.vararg is not None:
+                            extra_pos.append(arg)
+                        else:
+                            ok = False
+                    for k in d.keywords:
+                        if k.arg in params or k.arg in [x.arg for x in fa.kwonlyargs]:
+                            subst[k.arg] = k.value
+                        else:
+                            ok = False
+                    if not ok or any(p_ not in subst for p_ in params):
+                        continue
+                    vararg = fa.vararg.arg if fa.vararg is not None else None
+                    if not all(_simple(x) for x in list(subst.values()) + extra_pos):
+                        continue
+                body = [_Renamer({}, subst).visit(copy.deepcopy(x)) for x in pre]
+                if vararg is not None:
+                    bad = False
+                    for st_ in body:
+                        for c_ in ast.walk(st_):
+                            if isinstance(c_, ast.Call):
+                                new_args = []
+                                for x in c_.args:
+                                    if isinstance(x, ast.Starred) and isinstance(x.value, ast.Name) and x.value.id == vararg:
+                                        new_args.extend(copy.deepcopy(extra_pos))
+                                    else:
+                                        new_args.append(x)
+                                c_.args = new_args
+                        if any(isinstance(x, ast.Name) and x.id == vararg for x in ast.walk(st_)):
+                            bad = True
+                    if bad:
+                        continue
+                bound = {a.arg for a in fn.args.posonlyargs + fn.args.args + fn.args.kwonlyargs} | {x.id for x in ast.walk(fn) if isinstance(x, ast.Name) and isinstance(x.ctx, (ast.Store, ast.Del))}
+                free = {x.id for st_ in body for x in ast.walk(st_) if isinstance(x, ast.Name) and isinstance(x.ctx, ast.Load)} - {fn.args.args[0].arg}
+                if free & bound:
+                    continue
+                pos = 1 if fn.body and isinstance(fn.body[0], ast.Expr) and isinstance(fn.body[0].value, ast.Constant) and isinstance(fn.body[0].value.value, str) else 0
+                for st_ in body:
+                    ast.copy_location(st_, fn.body[pos] if len(fn.body) > pos else fn)
+                    for sub in ast.walk(st_):
+                        if hasattr(sub, "lineno"):
+                            sub.lineno = fn.lineno
+                            sub.end_lineno = fn.lineno
+                fn.body[pos:pos] = body
+                fn.decorator_list = fn.decorator_list[:-1]
+                changed = True
+                self.log.append(f"decorator {dname} folded into {fn.name}")
+        if changed:
+            for mod in self.p.modules.values():
+                ast.fix_missing_locations(mod.tree)
+        return changed
+
+    @staticmethod
+    def _wrapper_shape(fn: ast.FunctionDef):
+        """(factory arguments or None, wrapper def, statements before the delegating return) if
+        `fn` is a wrapper decorator / decorator factory of the supported shape, else None."""
+        def strip(body):
+            return [s_ for s_ in body if not (isinstance(s_, ast.Expr) and isinstance(s_.value, ast.Constant) and isinstance(s_.value.value, str))]
+
+        def plain_decorator(d: ast.FunctionDef):
+            a = d.args
+            if len(a.args) != 1 or a.vararg or a.kwarg or a.kwonlyargs or a.posonlyargs:
+                return None
+            body = strip(d.body)
+            if len(body) != 2 or not isinstance(body[0], (ast.FunctionDef, ast.AsyncFunctionDef)) or not isinstance(body[1], ast.Return):
+                return None
+            w = body[0]
+            rv = body[1].value
+            if isinstance(rv, ast.Call) and isinstance(rv.func, ast.Name) and rv.func.id == "cast" and len(rv.args) == 2:
+                rv = rv.args[1]
+            if not (isinstance(rv, ast.Name) and rv.id == w.name):
+                return None
+            for dd in w.decorator_list:
+                if not (isinstance(dd, ast.Call) and isinstance(dd.func, ast.Name) and dd.func.id == "wraps"):
+                    return None
+            wa = w.args
+            if not wa.args or len(wa.args) != 1 or wa.vararg is None or wa.kwarg is None or wa.kwonlyargs or wa.posonlyargs or wa.defaults:
+                return None
+            wb = strip(w.body)
+            if not wb or not isinstance(wb[-1], ast.Return) or wb[-1].value is None:
+                return None
+            call = wb[-1].value
+            if isinstance(w, ast.AsyncFunctionDef):
+                if not isinstance(call, ast.Await):
+                    return None
+                call = call.value
+            meth = a.args[0].arg
+            if not (isinstance(call, ast.Call) and isinstance(call.func, ast.Name) and call.func.id == meth and len(call.args) == 2 and isinstance(call.args[0], ast.Name) and call.args[0].id == wa.args[0].arg and isinstance(call.args[1], ast.Starred) and isinstance(call.args[1].value, ast.Name) and call.args[1].value.id == wa.vararg.arg and len(call.keywords) == 1 and call.keywords[0].arg is None and isinstance(call.keywords[0].value, ast.Name) and call.keywords[0].value.id == wa.kwarg.arg):
+                return None
+            pre = wb[:-1]
+            used = {x.id for st_ in pre for x in ast.walk(st_) if isinstance(x, ast.Name)}
+            if used & {meth, wa.vararg.arg, wa.kwarg.arg} or any(isinstance(x, (ast.Return, ast.Yield, ast.YieldFrom, ast.Await, ast.FunctionDef, ast.AsyncFunctionDef, ast.Lambda, ast.Nonlocal, ast.Global)) for st_ in pre for x in ast.walk(st_)):
+                return None
+            if any(isinstance(x, ast.Name) and isinstance(x.ctx, (ast.Store, ast.Del)) for st_ in pre for x in ast.walk(st_)):
+                return None
+            return w, pre
+
+        body = strip(fn.body)
+        # plain decorator
+        r = plain_decorator(fn)
+        if r is not None:
+            return (None,) + r
+        # factory: def D(params): def decorator(method): ...; return decorator
+        if len(body) == 2 and isinstance(body[0], ast.FunctionDef) and isinstance(body[1], ast.Return) and isinstance(body[1].value, ast.Name) and body[1].value.id == body[0].name and not body[0].decorator_list:
+            r = plain_decorator(body[0])
+            if r is not None and not fn.args.defaults and not fn.args.kw_defaults:
+                return (fn.args,) + r
+        return None
+
     # ------------------------------------------------------------------ one call site
     def _expand(self, caller: FuncInfo, stmt, call: ast.Call, awaited: bool, g: FuncInfo, mode: str, target):
         """Statements replacing `stmt`.  mode: 'expr' | 'assign' | 'return'"""
@@ -936,6 +1125,14 @@ class Inliner:
         changed_any = False
         from .normalize import normalize_tree
 
+        if self.inline_wrapper_decorators():
+            changed_any = True
+            for mod in self.p.modules.values():
+                normalize_tree(mod.tree)
+            self.p.reindex()
+            from .effects import Analysis as _A0
+
+            self.a = _A0(self.p)
         if self.inline_predicates():
             changed_any = True
             for mod in self.p.modules.values():
@@ -1365,7 +1562,7 @@ class Inliner:
         mode, target, value = None, None, None
         if isinstance(st, ast.Expr):
             mode, value = "expr", st.value
-        elif isinstance(st, ast.Assign) and len(st.targets) == 1 and (isinstance(st.targets[0], ast.Name) or (isinstance(st.targets[0], ast.Attribute) and _simple(st.targets[0].value))):
+        elif isinstance(st, ast.Assign) and len(st.targets) == 1 and (isinstance(st.targets[0], ast.Name) or (isinstance(st.targets[0], ast.Attribute) and _simple(st.targets[0].value)) or (isinstance(st.targets[0], ast.Subscript) and _simple(st.targets[0].value) and _simple(st.targets[0].slice))):
             mode, target, value = "assign", st.targets[0], st.value
         elif isinstance(st, ast.AnnAssign) and isinstance(st.target, ast.Name) and st.value is not None:
             mode, target, value = "assign", st.target, st.value
